@@ -58,8 +58,8 @@ static void set_id(ObjectHeaderBase * o, uint64_t id) {
 }
 static long get_id(ObjectHeaderBase * o) {
     long id = 999;
-    if (auto * h = dynamic_cast<ObjectHeader *>(o)) id = (long) h->objectTimeStamp;
-    else if (auto * h2 = dynamic_cast<ObjectHeader2 *>(o)) id = (long) h2->objectTimeStamp;
+    if (auto * h = dynamic_cast<ObjectHeader *>(o)) id = (long) (h->objectTimeStamp & 0x3fffffff);
+    else if (auto * h2 = dynamic_cast<ObjectHeader2 *>(o)) id = (long) (h2->objectTimeStamp & 0x3fffffff);
     return id == 0 ? 777 : id;
 }
 
